@@ -425,7 +425,7 @@ func (e *simEnv) judge(res drive.Result, tag string) (flow *refmatch.Flow, js []
 			switch {
 			case x == nil && !empty:
 				prop, sig := "C01", "unsound-hop/"+v.Name
-				c.Violate(prop, sig+"/"+e.witnessClass(js, hopIP(h.IPAddress)), fmt.Sprintf("%s: hop %d reports %s but no delivered frame is an acceptable reply to probe %d", tag, t, hopIP(h.IPAddress), t), detail())
+				c.Violate(prop, sig+"/"+e.witness(js, hopIP(h.IPAddress), t, h.RTT), fmt.Sprintf("%s: hop %d reports %s but no delivered frame is an acceptable reply to probe %d", tag, t, hopIP(h.IPAddress), t), detail())
 			case x != nil && empty:
 				c.Violate("C02", "missed-reply/"+v.Name+"/"+x.j.d.Frame.Class, fmt.Sprintf("%s: hop %d empty although frame #%d (%s from %s) answers probe %d in its window", tag, t, x.j.d.Frame.ID, x.j.d.Frame.Class, x.j.src, t), detail())
 			case x != nil:
@@ -433,7 +433,7 @@ func (e *simEnv) judge(res drive.Result, tag string) (flow *refmatch.Flow, js []
 				if a != x.j.src.Unmap() {
 					// some other frame filled the hop: is that frame acceptable at all?
 					if e.justified(js, f, t, a, h.IsDest) == nil {
-						c.Violate("C01", "unsound-hop/"+v.Name+"/"+e.witnessClass(js, a), fmt.Sprintf("%s: hop %d reports %s; reference keeps %s (frame #%d)", tag, t, a, x.j.src, x.j.d.Frame.ID), detail())
+						c.Violate("C01", "unsound-hop/"+v.Name+"/"+e.witness(js, a, t, h.RTT), fmt.Sprintf("%s: hop %d reports %s; reference keeps %s (frame #%d)", tag, t, a, x.j.src, x.j.d.Frame.ID), detail())
 					} else {
 						c.Violate("C07", "merge-order/"+v.Name, fmt.Sprintf("%s: hop %d reports %s; first-wins/destination-overrides keeps %s", tag, t, a, x.j.src), detail())
 					}
@@ -459,7 +459,7 @@ func (e *simEnv) judge(res drive.Result, tag string) (flow *refmatch.Flow, js []
 			if j2 := e.justified(js, f, t, a, !h.IsDest); j2 != nil {
 				c.Violate("C04", fmt.Sprintf("dest-mark/%s/%s/got%v", v.Name, j2.d.Frame.Class, h.IsDest), fmt.Sprintf("%s: hop %d (%s) destination=%v but the justifying frame #%d says %v (%s)", tag, t, a, h.IsDest, j2.d.Frame.ID, j2.out.Dest, j2.out.Why), detail())
 			} else {
-				c.Violate("C01", "unsound-hop/"+v.Name+"/"+e.witnessClass(js, a), fmt.Sprintf("%s: hop %d reports %s (dest=%v) but no frame read from that address is an acceptable reply to probe %d", tag, t, a, h.IsDest, t), detail())
+				c.Violate("C01", "unsound-hop/"+v.Name+"/"+e.witness(js, a, t, h.RTT), fmt.Sprintf("%s: hop %d reports %s (dest=%v) but no frame read from that address is an acceptable reply to probe %d", tag, t, a, h.IsDest, t), detail())
 			}
 			continue
 		}
@@ -535,15 +535,34 @@ func (e *simEnv) justified(js []judged, f *refmatch.Flow, t int, a netip.Addr, d
 	return nil
 }
 
-// witnessClass names the class of the (first) read frame carrying address a: the unique source
-// address of every non-genuine frame makes the wrongly accepted frame identify itself.
+// witnessClass names the class of the read frame the tool most likely used for a hop reporting address a:
+// the frame from a whose read instant explains the reported RTT (else the first frame from a). The unique
+// source address of every non-genuine frame makes a wrongly accepted frame identify itself.
 func (e *simEnv) witnessClass(js []judged, a netip.Addr) string {
+	return e.witness(js, a, -1, 0)
+}
+
+func (e *simEnv) witness(js []judged, a netip.Addr, ttl int, rttMs float64) string {
+	first := "no-such-frame"
+	var sent time.Time
+	for _, p := range e.probes {
+		if p.TTL == ttl {
+			sent = p.SentAt
+			break
+		}
+	}
 	for i := range js {
-		if js[i].src.Unmap() == a {
+		if js[i].src.Unmap() != a {
+			continue
+		}
+		if first == "no-such-frame" {
+			first = js[i].d.Frame.Class
+		}
+		if ttl >= 0 && !sent.IsZero() && math.Abs(msOf(js[i].d.ReadAt.Sub(sent))-rttMs) < 0.0006 {
 			return js[i].d.Frame.Class
 		}
 	}
-	return "no-such-frame"
+	return first
 }
 
 // completeness (C02) for per-hop mode: every must-accept frame delivered inside its probe's window
